@@ -193,6 +193,18 @@ CHECKS = {
         "Trusted: pytket get_commands/Op.get_unitary, mc/tketsim.py, mc/qref.py. NotImplementedError is a "
         "refusal. Bounds and strides in the evidence.",
         "DESIGN.md 4/C13"),
+    "C16": (
+        "exhaustive enumeration of all supported gates x grid phases, all pure circuits and all ZX diagrams "
+        "up to the bound; the real circuit2zx / dagger interpreted by an independent ZX reference",
+        "Every supported gate at every phase of the grid, kets/bras of every bitstring of length <= 2, and "
+        "every pure circuit up to the depth/width bound over that alphabet: the textbook interpretation of "
+        "circuit2zx(c) must be one non-zero multiple of the product of the gates' standard matrices, with "
+        "the same numbers of wires and a well-typed image. Every ZX diagram of Z/X spiders (all arities "
+        "with <= 3 legs, three phases), H, SWAP and scalars up to the bound: the dagger denotes the "
+        "conjugate transpose.",
+        "Trusted: mc/qref.py ZX semantics, pytket unitaries; tolerance 1e-9; circuits denoting 0 are "
+        "counted apart (proportionality undecidable).",
+        "DESIGN.md 4/C16"),
 }
 
 PENDING_REASON = ("check not built yet in this session (planned: bounded exhaustive exploration as in "
